@@ -119,8 +119,22 @@ def gen_dict(rng, name, style):
                     rows.append((gen_text(rng), [s], rng.choice(WEIGHTS)))
                 else:                       # in the prism, but only as part of a phrase
                     rows.append((gen_text(rng), [s, s], rng.choice(WEIGHTS)))
+    triple = None
+    if style == "table" and len(syl) >= 3:
+        # three syllables that an algebra variant lets ONE input spell: each gets 2-3 words, the weights dealt round-robin so
+        # that the three word lists interleave (the merge of three multi-entry chunks must re-sort after every step)
+        triple = rng.sample(syl, 3)
+        ws = ["100", "80", "60", "50", "20", "10", "5", "3", "1"]
+        if rng.random() < .4:
+            ws[rng.randrange(1, 6)] = ws[0]             # a tie across chunks
+        k = 0
+        for j in range(rng.choice([6, 7, 8, 9])):
+            sname = triple[j % 3]
+            text = "T%d%s" % (j, gen_text(rng))
+            rows.append((text, [sname], ws[k]))
+            k += 1
     used = sorted({s for r in rows for s in r[1]})
-    return dict(name=name, style=style, letters=letters, rows=rows, syllables=used)
+    return dict(name=name, style=style, letters=letters, rows=rows, syllables=used, triple=triple)
 
 
 def dict_yaml(d):
@@ -251,6 +265,10 @@ def gen_inputs(rng, d, v, bound, nrandom, maxlen):
                     if cand not in seen and len(cand) <= maxlen + 6:
                         seen.add(cand)
                         inputs.append(cand)
+    for k, syls_ in apply_algebra(d["syllables"], v.get("algebra", [])).items():
+        if len(syls_) >= 2 and k and k not in seen:       # one input spelling several codes
+            seen.add(k)
+            inputs.append(k)
     for _ in range(nrandom):
         r = rng.random()
         if r < .55:                      # concatenation of row codes (hits long codes, the tail page, sentences)
@@ -435,6 +453,10 @@ def make_plan(ctx, rng):
             elif alg:
                 vs += [dict(TABLE_VARIANTS[0], algebra=alg), dict(TABLE_VARIANTS[1], algebra=alg),
                        dict(TABLE_VARIANTS[2], algebra=gen_algebra(rng, d) or alg)]
+            if d.get("triple"):                 # one input (the first syllable's name) spells three codes
+                y, x1, x2 = d["triple"]
+                three = ["derive/^%s$/%s/" % (x1, y), "derive/^%s$/%s/" % (x2, y)]
+                vs += [dict(TABLE_VARIANTS[0], algebra=three), dict(TABLE_VARIANTS[1], algebra=three)]
         for k, v in enumerate(vs):
             sid = "%s_v%d" % (d["name"], k)
             files["%s.schema.yaml" % sid] = schema_yaml(sid, d, v)
@@ -667,7 +689,7 @@ class Ref:
         if not has_sentence:
             # judged by what the entries are, not by the type label: a maximal run of entries whose code equals the
             # input (non-increasing weight), then only entries whose code strictly extends it (completion enabled)
-            in_exact_part, lastc, breaker_short_named = True, None, False
+            in_exact_part, run, breaker_short_named = True, [], False
             for c in cands:
                 if c["type"] == "NULL" or c["start"] != 0 or c["end"] != n or not c["code"] or len(c["code"]) != 1 or \
                         c["type"] not in ("table", "completion"):
@@ -675,9 +697,7 @@ class Ref:
                     continue
                 ts = (c["text"], c["code"][0])
                 if in_exact_part and ts in exact:
-                    if lastc is not None and exact[ts] > exact[(lastc["text"], lastc["code"][0])]:
-                        fails.append(("weight-order", cand_key(lastc) + " before " + cand_key(c)))
-                    lastc = c
+                    run.append((exact[ts], c))          # judged as a whole below (all codes the whole input spells)
                     continue
                 if in_exact_part:
                     # the artifact of remaining_code being computed from the syllable's NAME: an entry reached through a
@@ -692,6 +712,14 @@ class Ref:
                                   cand_key(c)))
                 else:
                     fails.append(("foreign-candidate", cand_key(c)))
+            # the whole maximal run of exact matches - whatever codes they belong to - in non-increasing weight order
+            # (equal weights in any order: ties as multisets)
+            for k in range(len(run)):
+                later = [x for x in run[k + 1:] if x[0] > run[k][0]]
+                if later:
+                    fails.append(("weight-order", "%s (weight %g) before %s (weight %g); run weights %s" % (
+                        cand_key(run[k][1]), run[k][0], cand_key(later[0][1]), later[0][0], [x[0] for x in run])))
+                    break
             for (t, sid) in exact:
                 if not any(c.get("text") == t for c in cands):
                     fails.append(("missing-entry", "%s key=%s" % (hx(t), code)))
@@ -832,7 +860,8 @@ def run(ctx):
     mlines = [l for l in mout.split("\n") if l]
     mism, oracle_bad = [], []
     stats = {"script": 0, "table": 0, "sentence": 0, "completion_cands": 0, "long_code_cands": 0, "candidates": 0, "empty": 0,
-             "prefix_phrases": 0, "algebra_cases": 0, "lazy_cases_with_10_or_more_extending_keys": 0, "inputs_with_delimiter": 0}
+             "prefix_phrases": 0, "algebra_cases": 0, "lazy_cases_with_10_or_more_extending_keys": 0, "inputs_with_delimiter": 0,
+             "table_inputs_spelling_3_or_more_codes": 0, "of_which_multi_entry_chunks_interleaved": 0}
     nontrivial = set()
     if rc2 != 0 or len(mlines) != len(index):
         ctx.violation("model-run", "the extracted model did not answer every case", {"rc": rc2, "stderr": merr[-2000:],
@@ -858,6 +887,17 @@ def run(ctx):
         if kind == "table" and v_["completion"]:
             code_ = case["input"].rstrip(v_["delims"].encode())
             stats["lazy_cases_with_10_or_more_extending_keys"] += sum(1 for k, _ in bk["keys"] if k.startswith(code_)) >= 10
+        if kind == "table" and not has_sent:
+            # exact matches: how many codes (syllables) the input spells, and how often the shown order switches between them
+            code_ = case["input"].rstrip(v_["delims"].encode())
+            words = {tuple(cd): len(ents) for cd, _, ents in bk["nodes"] if len(cd) == 1 and ents}
+            sp = [sid for k, spl in bk["keys"] if k == code_ for sid, ty, _ in spl if ty == 0 and (sid,) in words]
+            if len(set(sp)) >= 3:
+                stats["table_inputs_spelling_3_or_more_codes"] += 1
+                seq_ = [c["code"][0] for c in case["cands"] if c["type"] == "table" and c["code"]]
+                switches = sum(1 for a_, b_ in zip(seq_, seq_[1:]) if a_ != b_)
+                if switches >= 3 and any(words[(x,)] >= 2 for x in set(sp)):
+                    stats["of_which_multi_entry_chunks_interleaved"] += 1
         if len(ic) >= 2:
             nontrivial.add((bk["id"].split("_")[0], kind, tuple(ic)))
         if mc != ic:
@@ -969,6 +1009,17 @@ MUTATION_DRILLS = [
     {"mutation": "translation.cc DistinctTranslation::Next: remember only the first three texts", "compiles": True, "detected": True,
      "fired": "VIOLATION correspondence:c07 no-failing-input-found (input 'abbabbaabbab', schema ds0_v1): a duplicate text is shown "
               "again; duplicates are not excluded by the property's text, so only the model disagrees"},
+    {"mutation": "dictionary.cc DictEntryIterator::FindNextEntry: fast path - return without Sort() when the current chunk's next "
+                 "entry still beats the head of chunks[chunk_index_+1] (partial_sort only positions the best chunk, so index+1 is "
+                 "not the runner-up)", "compiles": True, "detected": True,
+     "fired": "VIOLATION table:weight-order:plain with a concrete failing input: 'aa' in schema dt2_v10 (speller/algebra "
+              "derive/^aaa$/aa/ + derive/^b$/aa/: the input spells three codes with multi-entry word lists), exact matches shown with "
+              "weights ... 100, 50, 37, 100, 60 ...  An independently seeded change of this class had at first been reported only as "
+              "correspondence:c07 no-failing-input-found: the reference did compare every adjacent pair of the exact run, but no "
+              "generated table schema let one input spell three codes (with two chunks index+1 IS the runner-up).  The generator now "
+              "adds, to every table-style dictionary, three syllables with interleaved multi-entry word lists and two variants whose "
+              "algebra maps all three onto one spelling; the run check is stated over the whole maximal run (ties as multisets); "
+              "coverage.distribution counts table_inputs_spelling_3_or_more_codes"},
     {"mutation": "(unfixed tree) table_translator.cc without the Sort() calls of fix 3b72e76", "compiles": True, "detected": True,
      "fired": "VIOLATION table:weight-order:plain, failing input 'bb' with speller/algebra xform/^b$/bb/ (corpus/C07/unfixed-table-weight-order.json)"},
     {"mutation": "(unfixed tree) table_translator.cc with the shallow DictEntryIterator copy, before fix f0d9311", "compiles": True,
